@@ -91,6 +91,11 @@ pub fn mutate(rng: &mut Rng, v: Version, img: &mut Vec<u8>) -> String {
                 2 => *rng.pick(&[63u32, 64, 65, 4095, 4096, 4097, 100_000, 0x7FFF_FFFF]),
                 _ => *rng.pick(VALUES),
             };
+            // the model computes positions in unbounded N; a recorded length whose high word is
+            // all ones lets position + count pass 2^64, where the crate refuses the write
+            // (fix 79c421d) and the model does not: that region is exercised on the crate by
+            // the probe length_near_u64_max, not by the lockstep
+            let val = if field == 124 && val == 0xFFFF_FFFF { 0xFFFF_FFFE } else { val };
             if field == 66 || field == 64 {
                 img[off] = val as u8;
                 format!("dir slot {} byte +{} := {:#x}", slot, field, val as u8)
